@@ -80,9 +80,8 @@ Definition check_sel (c : sel_case) : N :=
 
 (* ---------------------------------------------------------------- generator info *)
 Inductive gev :=
-| GForge (lost : bool) (after : N) (forged : bool) (hdr : bh) (at_handoff stored : option geninfo)
-| GForgeBlocked (forged : bool)
-| GTip (t : tip) | GBegin | GDelete (t : tip) | GApply (t : tip) | GEnd | GRestart.
+| GForge (lost : bool) (forged : bool) (hdr : bh) (at_handoff stored : option geninfo)
+| GTip (t : tip) | GSync (b : bool) | GRestart.
 
 Definition bh_eqb (a b : bh) : bool :=
   (height a =? height b) && (gen a =? gen b) && (mhg a =? mhg b) && (mhp a =? mhp b).
@@ -91,38 +90,30 @@ Definition gi_eqb (a b : geninfo) : bool :=
 Definition ogi_eqb (a b : option geninfo) : bool :=
   match a, b with Some x, Some y => gi_eqb x y | None, None => true | _, _ => false end.
 
-(* state of the walk: model state (None once the harness left the modelled discipline), headers the
-   implementation handed on (newest first), agreement so far, oracle so far *)
-Fixpoint walk (g : N) (s : option st) (pubs : list bh) (agree spec : bool) (evs : list gev) : bool * bool :=
+(* state of the walk: model state, headers the implementation handed on (newest first), agreement, oracle *)
+Fixpoint walk (g : N) (m : st) (pubs : list bh) (agree spec : bool) (evs : list gev) : bool * bool :=
   match evs with
   | [] => (agree, spec)
   | e :: r =>
-      match s with
-      | None => (false, spec)
-      | Some m =>
-          match e with
-          | GForge lost after forged hdr ath stored =>
-              let '(h, info) := init_header (disk m) (node m) g in
-              let m' := step g init_header m (EForge (if lost then CrashAfterPersist else NoCrash) after) in
-              let a := forged && bh_eqb hdr h && ogi_eqb ath (Some info) && ogi_eqb stored (Some info) in
-              let sp := forged &&
-                        (* maxHeightGenerated reports the largest height generated before *)
-                        (max_height pubs <=? mhg hdr) &&
-                        (* what is on disk at hand-off time is the info of this very header *)
-                        ogi_eqb ath (Some (Build_geninfo (height hdr) (mhp hdr) (mhg hdr))) &&
-                        (* the header contradicts none of the earlier ones *)
-                        (lost || forallb (fun p => negb (contradicting p hdr) && negb (contradicting hdr p)) pubs) in
-              walk g m' (if lost then pubs else hdr :: pubs) (agree && a) (spec && sp) r
-          | GForgeBlocked forged =>
-              let blocked := match step g init_header m (EForge NoCrash 0) with None => true | Some _ => false end in
-              walk g (Some m) pubs (agree && blocked && negb forged) spec r
-          | GTip t => walk g (step g init_header m (ETip t)) pubs agree spec r
-          | GBegin => walk g (step g init_header m ESwitchBegin) pubs agree spec r
-          | GDelete t => walk g (step g init_header m (EDelete t)) pubs agree spec r
-          | GApply t => walk g (step g init_header m (EApply t)) pubs agree spec r
-          | GEnd => walk g (step g init_header m ESwitchEnd) pubs agree spec r
-          | GRestart => walk g (step g init_header m ERestart) pubs agree spec r
-          end
+      match e with
+      | GForge lost forged hdr ath stored =>
+          let m' := step g init_header m (EForge (if lost then CrashAfterPersist else NoCrash)) in
+          let expected := if syncing m then None else init_header (disk m) (node m) g in
+          let a := match expected with
+                   | Some (h, info) => forged && bh_eqb hdr h && ogi_eqb ath (Some info) && ogi_eqb stored (Some info)
+                   | None => negb forged && ogi_eqb stored (disk m)
+                   end in
+          let sp := negb forged ||
+                    ((* maxHeightGenerated reports the largest height generated before *)
+                     (max_height pubs <=? mhg hdr) &&
+                     (* what is on disk at hand-off time is the info of this very header *)
+                     ogi_eqb ath (Some (Build_geninfo (height hdr) (mhp hdr) (mhg hdr))) &&
+                     (* the header contradicts none of the earlier ones *)
+                     (lost || forallb (fun p => negb (contradicting p hdr) && negb (contradicting hdr p)) pubs)) in
+          walk g m' (if forged && negb lost then hdr :: pubs else pubs) (agree && a) (spec && sp) r
+      | GTip t => walk g (step g init_header m (ETip t)) pubs agree spec r
+      | GSync b => walk g (step g init_header m (ESync b)) pubs agree spec r
+      | GRestart => walk g (step g init_header m ERestart) pubs agree spec r
       end
   end.
 
@@ -130,11 +121,17 @@ Definition gen_case : Type := N * tip * list gev.
 
 Definition check_gen (c : gen_case) : N :=
   let '(g, t0, evs) := c in
-  let '(a, sp) := walk g (Some (init t0)) [] true true evs in
-  code (a && tip_ok t0) sp.
+  let '(a, sp) := walk g (init t0) [] true true evs in
+  code a sp.
+
+(* misbehaving environment on the real node: (first forged, second forged, the two headers contradict) *)
+Definition check_dbl (c : bool * bool * bool) : N :=
+  let '(f1, f2, contra) := c in
+  code (f1 && negb f2) (f1 && negb (f2 && contra)).
 
 (* ---------------------------------------------------------------- generated block accepted by the own node *)
-(* (forged, accepted without error, tip is the generated block afterwards, panic) *)
-Definition check_accept (c : bool * bool * bool * bool) : N :=
-  let '(forged, accepted, tip_is_block, pan) := c in
-  let ok := forged && accepted && tip_is_block && negb pan in code ok ok.
+(* (forged, accepted without error, tip is the generated block afterwards, panic, payload size, size limit,
+   number of transactions in the block that were scripted to fail verification) *)
+Definition check_accept (c : bool * bool * bool * bool * N * N * N) : N :=
+  let '(forged, accepted, tip_is_block, pan, payload, limit, bad_in) := c in
+  let ok := forged && accepted && tip_is_block && negb pan && (payload <=? limit) && (bad_in =? 0) in code ok ok.
